@@ -106,11 +106,9 @@ theorem jw_decodeWritePkt (P : Params) (st : St) (w : BW) (pkt : Bytes) {st' : S
     JW st' w' ∧ SameBW w w' ∧ SameSt st st' := by
   unfold decodeWritePkt at h
   split at h
-  · split at h
-    · simp at h
-    · have key := fun hjw => jw_decoderRead P _ _ _ hjw h
-      have h1 := key ⟨hj.ctx, hj.md5, hj.nc⟩
-      exact ⟨h1.1, ⟨h1.2.1.cenc, h1.2.1.left, h1.2.1.sbn⟩, h1.2.2⟩
+  · have key := fun hjw => jw_decoderRead P _ _ _ hjw h
+    have h1 := key ⟨hj.ctx, hj.md5, hj.nc⟩
+    exact ⟨h1.1, ⟨h1.2.1.cenc, h1.2.1.left, h1.2.1.sbn⟩, h1.2.2⟩
   · exact jw_dwLoop _ _ _ _ _ _ _ hj h
 
 theorem jw_bwData (P : Params) (st : St) (w : BW) (data : Bytes) {st' : St} {w' : BW}
